@@ -417,6 +417,61 @@ def m_opt_ok_or(ex, c, args, m):
     o = args[0]
     if o.disc == 1: return ok(o.payload.f[0])
     return err(args[1] if m.group(2) == 'ok_or' else call_fn(ex, args[1], []))
+# further combinators a changed tree is likely to reach for (kept here so that a check stays decidable instead of answering "no model for ...")
+def _disc(ex, o):
+    d = o.disc
+    return (1 if ex.decide(d == 1) else 0) if z3.is_expr(d) else d
+@M.add(r'^(std::option::)?Option::<.*>::(map_or|map_or_else)::<')
+def m_opt_map_or(ex, c, args, m):
+    o = args[0]
+    if _disc(ex, o) == 1: return call_fn(ex, args[2], [o.payload.f[0]])
+    return args[1] if m.group(2) == 'map_or' else call_fn(ex, args[1], [])
+@M.add(r'^(std::option::)?Option::<.*>::(is_some_and|is_none_or)::<')
+def m_opt_is_some_and(ex, c, args, m):
+    o = args[0]
+    if _disc(ex, o) == 1: return call_fn(ex, args[1], [o.payload.f[0]])
+    return B(m.group(2) == 'is_none_or')
+@M.add(r'^(std::option::)?Option::<.*>::(or|or_else|and|xor)(::<.*>)?$')
+def m_opt_or(ex, c, args, m):
+    o = args[0]; op = m.group(2); some_ = _disc(ex, o) == 1
+    if op == 'or': return o if some_ else args[1]
+    if op == 'or_else': return o if some_ else call_fn(ex, args[1], [])
+    if op == 'and': return args[1] if some_ else none()
+    b = _disc(ex, args[1]) == 1
+    return o if (some_ and not b) else (args[1] if (b and not some_) else none())
+@M.add(r'^(std::option::)?Option::<.*>::zip::<')
+def m_opt_zip(ex, c, args, m):
+    a, b = args[0], args[1]
+    return some(tup(a.payload.f[0], b.payload.f[0])) if _disc(ex, a) == 1 and _disc(ex, b) == 1 else none()
+@M.add(r'^(std::option::)?Option::<.*>::replace$')
+def m_opt_replace(ex, c, args, m):
+    r = args[0]; v = r.c[r.k]; r.c[r.k] = some(args[1]); return v
+@M.add(r'^(std::option::)?Option::<.*>::inspect::<')
+def m_opt_inspect(ex, c, args, m):
+    o = args[0]
+    if _disc(ex, o) == 1: call_fn(ex, args[1], [Ref(o.payload.f, 0)])
+    return o
+@M.add(r'^(std::result::)?Result::<.*>::(unwrap_or|unwrap_or_else|unwrap_or_default)(::<.*>)?$')
+def m_res_unwrap_or(ex, c, args, m):
+    r = args[0]
+    if r.disc == 0: return r.payload.f[0]
+    if m.group(2) == 'unwrap_or': return args[1]
+    if m.group(2) == 'unwrap_or_else': return call_fn(ex, args[1], [r.payload.f[0]])
+    raise Unsupported('unwrap_or_default on Err: ' + c)
+@M.add(r'^(std::result::)?Result::<.*>::(and_then|or_else)::<')
+def m_res_and_then(ex, c, args, m):
+    r = args[0]
+    if m.group(2) == 'and_then': return call_fn(ex, args[1], [r.payload.f[0]]) if r.disc == 0 else r
+    return r if r.disc == 0 else call_fn(ex, args[1], [r.payload.f[0]])
+@M.add(r'^(std::result::)?Result::<.*>::(map_or|map_or_else)::<')
+def m_res_map_or(ex, c, args, m):
+    r = args[0]
+    if r.disc == 0: return call_fn(ex, args[2], [r.payload.f[0]])
+    return args[1] if m.group(2) == 'map_or' else call_fn(ex, args[1], [r.payload.f[0]])
+@M.add(r'^(std::result::)?Result::<.*>::(is_ok_and|is_err_and)::<')
+def m_res_is_and(ex, c, args, m):
+    r = args[0]; want = 0 if m.group(2) == 'is_ok_and' else 1
+    return call_fn(ex, args[1], [r.payload.f[0]]) if r.disc == want else B(False)
 @M.add(r'^(std::option::)?Option::<.*>::(cloned|copied)$')
 def m_opt_cloned(ex, c, args, m): return some(cp(dd(args[0].payload.f[0]))) if args[0].disc == 1 else none()
 @M.add(r'^(std::option::)?Option::<.*>::(as_ref|as_mut|as_deref|as_deref_mut)$')
